@@ -1,0 +1,51 @@
+//go:build verif
+
+package ship
+
+// Hooks for the verification harness in /verif (build tag "verif"). Add-only: nothing
+// here is compiled into a normal build.
+
+// VerifSnapshot is a read-only view of the connection's handshake bookkeeping.
+type VerifSnapshot struct {
+	State        uint
+	HasError     bool
+	TimerRunning bool
+	TimerType    uint
+	ReaderSet    bool
+	BufferLen    int
+	RemoteShipID string
+}
+
+func (c *ShipConnection) VerifSnapshot() VerifSnapshot {
+	c.mux.Lock()
+	state := c.smeState
+	hasErr := c.smeError != nil
+	c.mux.Unlock()
+
+	c.bufferMux.Lock()
+	bufLen := len(c.spineBuffer)
+	c.bufferMux.Unlock()
+
+	return VerifSnapshot{
+		State:        uint(state),
+		HasError:     hasErr,
+		TimerRunning: c.getHandshakeTimerRunning(),
+		TimerType:    uint(c.getHandshakeTimerType()),
+		ReaderSet:    c.dataReader != nil,
+		BufferLen:    bufLen,
+		RemoteShipID: c.remoteShipID,
+	}
+}
+
+// VerifFireTimeout does what the timer goroutine does at expiry, now: if a handshake
+// timer is running it is stopped, the running flag is cleared and the timeout is
+// delivered to the state machine. Returns false if no timer was running.
+func (c *ShipConnection) VerifFireTimeout() bool {
+	if !c.getHandshakeTimerRunning() {
+		return false
+	}
+	c.stopHandshakeTimer()
+	c.setHandshakeTimerRunning(false)
+	c.handleState(true, nil)
+	return true
+}
